@@ -36,7 +36,7 @@ def gotest(wt, pkgs, run=None, stub=False, timeout=1200):
 
 
 PFX = os.environ.get("SEEDPFX", "seed")          # SEEDPFX=seed2: second round, outputs in /tmp/seed2-<cNN>-out, stored as <ID>-4..6
-OFFSET = {"seed": 0, "seed2": 3, "seed3": 6, "seed4": 9}.get(PFX, 0)
+OFFSET = {"seed": 0, "seed2": 3, "seed3": 6, "seed4": 9, "seed5": 12}.get(PFX, 0)
 
 
 def seeds(cid):
